@@ -3,10 +3,11 @@ import PeliteModel.Lemmas.Typed
 import PeliteModel.Lemmas.Convert
 /-!
 Helper lemmas for `Thm/C02Arith.lean`: every CHECKED function of `Model/PeChecked.lean` equals the
-unchecked model function — no panicking primitive (`padd32`, `padd64`, `psub`, `pmul64`,
+unchecked model function — no panicking primitive (`padd32`, `padd64`, `psub`, `pmulUsize`,
 `pIndexTo`, `pIndexFrom`, `pIndex`, `pCopyLen`) and no `rawRef` ever takes its failure branch.
 -/
 namespace Pelite
+namespace Pe
 
 /-! ### the primitives succeed when their side condition holds -/
 
@@ -16,8 +17,8 @@ theorem padd32_ok {s : String} {a b : Nat} (h : a + b < 4294967296) : padd32 s a
   unfold padd32; rw [if_pos h]
 theorem padd64_ok {s : String} {a b : Nat} (h : a + b < 18446744073709551616) : padd64 s a b = .ok (a + b) := by
   unfold padd64; rw [if_pos h]
-theorem pmul64_ok {s : String} {a b : Nat} (h : a * b < 18446744073709551616) : pmul64 s a b = .ok (a * b) := by
-  unfold pmul64; rw [if_pos h]
+theorem pmulUsize_ok {s : String} {a b : Nat} (h : a * b < 18446744073709551616) : pmulUsize s a b = .ok (a * b) := by
+  unfold pmulUsize; rw [if_pos h]
 theorem pIndexTo_ok {s : String} {len n : Nat} (h : n ≤ len) : pIndexTo s len n = .ok n := by
   unfold pIndexTo; rw [if_pos h]
 theorem pIndexFrom_ok {s : String} {len n : Nat} (h : n ≤ len) : pIndexFrom s len n = .ok (len - n) := by
@@ -27,7 +28,6 @@ theorem pIndex_ok {s : String} {len i : Nat} (h : i < len) : pIndex s len i = .o
 theorem pCopyLen_ok {s : String} {a b : Nat} (h : a = b) : pCopyLen s a b = .ok () := by
   unfold pCopyLen; rw [if_pos h]
 
-namespace Pe
 
 /-! ### powers of two -/
 
@@ -394,7 +394,7 @@ theorem checkSumChk_eq (v : View) (hb : v.b.size < 4294967296) : v.checkSumChk =
     (Nat.le_refl _) (by decide)
   rw [h1]
   simp only [Out.bind_ok]
-  rw [pmul64_ok (by omega)]
+  rw [pmulUsize_ok (by omega)]
   simp only [Out.bind_ok]
   rw [pIndexFrom_ok (by omega)]
   simp only [Out.bind_ok]
@@ -438,9 +438,9 @@ theorem validateChk_eq (f : Fmt) (img : Img) : validateChk f img = validate f im
   simp only [h24, padd64_ok (show eLfanew img.bytes + 24 < 18446744073709551616 by omega),
     padd64_ok (show eLfanew img.bytes + 24 + 2 < 18446744073709551616 by omega),
     padd64_ok (show eLfanew img.bytes + f.ntSize < 18446744073709551616 by omega),
-    pmul64_ok (show min (numberOfRvaAndSizes f img.bytes) 16 * 8 < 18446744073709551616 by omega),
+    pmulUsize_ok (show min (numberOfRvaAndSizes f img.bytes) 16 * 8 < 18446744073709551616 by omega),
     padd64_ok (show eLfanew img.bytes + f.ntSize + min (numberOfRvaAndSizes f img.bytes) 16 * 8 < 18446744073709551616 by omega),
-    pmul64_ok (show numberOfSections img.bytes * 40 < 18446744073709551616 by omega),
+    pmulUsize_ok (show numberOfSections img.bytes * 40 < 18446744073709551616 by omega),
     padd64_ok (show eLfanew img.bytes + 24 + sizeOfOptionalHeader img.bytes < 18446744073709551616 by omega),
     padd64_ok (show numberOfSections img.bytes * 40 + (eLfanew img.bytes + 24 + sizeOfOptionalHeader img.bytes) < 18446744073709551616 by omega),
     Out.bind_ok]
@@ -530,7 +530,7 @@ theorem sliceFLoopChk_eq (img : Img) (off blen size align : Nat) (stop : Nat →
   | succ fuel ih =>
     intro len hf hl
     unfold sliceFLoopChk
-    rw [sliceFLoop_succ, pmul64_ok (by omega)]
+    rw [sliceFLoop_succ, pmulUsize_ok (by omega)]
     simp only [Out.bind_ok]
     have hsum : len * size + size < 18446744073709551616 := by
       rcases Nat.eq_zero_or_pos len with h0 | h0
@@ -622,7 +622,7 @@ theorem wstrFromBytesChk_eq (img : Img) (off len : Nat) (hin : off + len ≤ img
   simp only [Out.bind_ok]
   rw [padd64_ok (by omega)]
   simp only [Out.bind_ok]
-  rw [pmul64_ok (by omega)]
+  rw [pmulUsize_ok (by omega)]
   simp only [Out.bind_ok]
   by_cases hc : (le16 img.bytes off + 1) * 2 > len
   · rw [if_pos hc, if_pos hc]
